@@ -14,6 +14,7 @@ import (
 	_ "crypto/sha512"
 	"fmt"
 	"reflect"
+	"runtime/debug"
 	"strings"
 	"sync"
 	"testing"
@@ -27,7 +28,12 @@ import (
 	"mellium.im/xmpp/verifharness/internal/ev"
 )
 
-func TestMain(m *testing.M) { ev.Main(m, "C20") }
+func TestMain(m *testing.M) {
+	// every case allocates a few short-lived values (fresh forms, decoders,
+	// hash states); the live heap is tiny, so collect less often
+	debug.SetGCPercent(800)
+	ev.Main(m, "C20")
+}
 
 // every hash the crypto package lists
 var listed = []crypto.Hash{
